@@ -21,6 +21,7 @@ import (
 	"github.com/AdguardTeam/AdGuardDNS/internal/agd"
 	"github.com/AdguardTeam/AdGuardDNS/internal/agdcache"
 	"github.com/AdguardTeam/AdGuardDNS/internal/agdtest"
+	"github.com/AdguardTeam/AdGuardDNS/internal/dnsmsg"
 	"github.com/AdguardTeam/AdGuardDNS/internal/dnsserver"
 	"github.com/AdguardTeam/AdGuardDNS/internal/geoip"
 	"github.com/AdguardTeam/golibs/netutil"
@@ -83,6 +84,12 @@ func (i c04Inst) ask(t *testing.T, q c04Q, id uint16) (a c04Ans, up bool) {
 		QType:    q.QType,
 		QClass:   q.QClass,
 	}
+	if q.AD == q.DO && id%2 == 0 {
+		// the client sent an ECS option of its own (the subnet of its own region): the answer echoes it
+		if pr, ok := c04Geo[q.Loc]; ok {
+			ri.ECS = &dnsmsg.ECS{Location: ri.Location, Subnet: pr, Scope: 0}
+		}
+	}
 	ctx := agd.ContextWithRequestInfo(context.Background(), ri)
 	// the server stamps every request with its time of ARRIVAL; the cache's clock is the time of
 	// processing, which may be later (worker queue, rate limiting, filtering)
@@ -131,6 +138,7 @@ func c04RunHistory(t *testing.T, out *vhOut, beh int, steps []c04Step, override 
 
 func TestVerifC04ECS(t *testing.T) {
 	out := vhOpen(t)
+	c04DigestOPT = true
 	rng := rand.New(rand.NewSource(vhSeed() + 1000))
 	beh := 0
 	if p := os.Getenv("VERIF_IN"); p != "" {
